@@ -433,7 +433,7 @@ pub fn run(ctx: &Ctx) -> (Report, PropertyMeta) {
     let r = run_cases(ctx, "str", &sc, str_outcome);
     report.exhaustive_parts.push(format!("host forms x bracket styles x port forms cross product ({} strings)", sc.len()));
     report.merge(r);
-    let n = t.pick(20_000, 400_000);
+    let n = t.pick(200_000, 4_000_000);
     report.merge(run_random(ctx, "str", n, 4..=16, gen_grammar, str_outcome));
     report.merge(run_random(ctx, "str", n, 2..=60, gen_unicode, str_outcome));
     report.sections.push(json!({"random_grammar_cases": n, "random_unicode_cases": n}));
